@@ -40,3 +40,9 @@ func (lalr *LALR1) VerifTransitions() []VerifTransition {
 	}
 	return res
 }
+
+// VerifRelation builds a Relation (its fields are unexported) so that Digraph
+// can be driven from outside the package.
+func VerifRelation(x, y int) Relation {
+	return Relation{x: x, y: y}
+}
